@@ -432,6 +432,33 @@ func shadowTemplates() []shadowTpl {
 		{"global-set/after", "(progn\n{CALL}\n)\n(set '{B} (lambda (&rest a) 0))", 2},
 		{"other-package-defun", "(in-package 'other)\n(defun {B} (&rest a) 0)\n(in-package 'user)\n{CALL}", 4},
 		{"dotimes-var/body", "(dotimes ({B} 1)\n{CALL})", 2},
+		// placements without any shadowing: the call sits in a position of a special form that an analyzer may
+		// mistake for a binding list or skip as "not code"
+		{"placed/dotimes-count", "(dotimes (zi\n{CALL}\n) zi)", 2},
+		{"placed/dotimes-result", "(dotimes (zi 1\n{CALL}\n) zi)", 2},
+		{"placed/dotimes-body", "(dotimes (zi 1)\n{CALL})", 2},
+		{"placed/let-value", "(let ([zv\n{CALL}]) zv)", 2},
+		{"placed/let*-second-value", "(let* ([zv 1] [zw\n{CALL}]) zw)", 2},
+		{"placed/if-test", "(if\n{CALL}\n1 2)", 2},
+		{"placed/if-else", "(if false 1\n{CALL})", 2},
+		{"placed/cond-test", "(cond (\n{CALL}\n1))", 2},
+		{"placed/cond-else-body", "(cond (false 1) (else\n{CALL}))", 2},
+		{"placed/and-arg", "(and true\n{CALL})", 2},
+		{"placed/or-arg", "(or false\n{CALL})", 2},
+		{"placed/handler-bind-body", "(handler-bind ([nomatch (lambda (c &rest d) 0)])\n{CALL})", 2},
+		{"placed/handler-expression", "(handler-bind ([condition (progn\n{CALL}\n(lambda (c &rest d) 0))]) (error 'x))", 2},
+		{"placed/in-handler", "(handler-bind ([xx (lambda (c &rest d)\n{CALL})]) (error 'xx))", 2},
+		{"placed/ignore-errors-then-value", "(progn (ignore-errors 1)\n{CALL})", 2},
+		{"placed/thread-first-initial", "(thread-first\n{CALL}\n(list))", 2},
+		{"placed/thread-last-step-arg", "(thread-last 1 (list\n{CALL}))", 2},
+		{"placed/quasiquote-unquote", "(quasiquote (1 (unquote\n{CALL})))", 2},
+		{"placed/set-value", "(set 'zq\n{CALL})", 2},
+		{"placed/lambda-body-called", "((lambda ()\n{CALL}))", 2},
+		{"placed/labels-body", "(labels ([zg () 1])\n{CALL})", 2},
+		{"placed/labels-function-body", "(labels ([zg ()\n{CALL}]) (zg))", 2},
+		{"placed/macrolet-body", "(macrolet ([zm () 1])\n{CALL})", 2},
+		{"placed/assert-arg", "(assert\n{CALL})", 2},
+		{"placed/argument-of-user-function", "(defun zf (a) a)\n(zf\n{CALL})", 3},
 	}
 	return t
 }
